@@ -285,11 +285,20 @@ class SimDeployDriver(DeployDriver):
         return ann_deploy.apply_deploy_rulebook(hw, cmd_paths, do_finalize=do_finalize, do_commit=do_commit)
 
     def build_configuration_cmdlist(self, hw, do_finalize=True, do_commit=True):
-        from annet.annlib.command import CommandList
-        return CommandList(), CommandList()
+        """session commands of the transport itself (a real driver may e.g. become root before and leave after)"""
+        from annet.annlib.command import Command, CommandList
+        before, after = CommandList(), CommandList()
+        w = WORLD
+        for c in getattr(w, "driver_before", ()) if w is not None else ():
+            before.add_cmd(Command(c))
+        for c in getattr(w, "driver_after", ()) if w is not None else ():
+            after.add_cmd(Command(c))
+        return before, after
 
     def build_exit_cmdlist(self, hw):
-        return []
+        from annet.annlib.command import Command
+        w = WORLD
+        return [Command(c) for c in (getattr(w, "driver_exit", ()) if w is not None else ())]
 
 
 def install():
